@@ -2426,7 +2426,7 @@ def sm9_point(ctx, k, twist=False):
 
 def _sm9_scalars(rng, n):
     out = [1, 2, 0xFF, (1 << 247) - 1, 1 << 240, rng.getrandbits(247), rng.getrandbits(200), rng.getrandbits(248) | (1 << 247), 1 << 255,
-           rng.getrandbits(255) | (1 << 255) if False else (1 << 255) + 12345]
+           (1 << 255) + 12345]
     while len(out) < n:
         out.append(rng.getrandbits(255) | 1)
     return out[:n]
@@ -2831,7 +2831,7 @@ def name_value(rng, nm):
     if k == 3:
         s = ''.join(chr(rng.randrange(0x21, 0xD7FF)) for _ in range(rng.randint(1, mx // 2)))
         b = s.encode('utf-16-be')
-        return (30, b) if b'\x00' not in b or True else (12, b'x')
+        return 30, b
     return 20, bytes(rng.randrange(0x20, 0x7F) for _ in range(rng.randint(1, mx)))
 
 
@@ -2872,9 +2872,6 @@ def u_names(ctx, u):
     for nm in sorted(AT):
         for _ in range(6 if thorough(ctx) else 3):
             tag, val = name_value(rng, nm)
-            if tag == 30 and b'\x00' in val:
-                # BMPString text with a zero octet: x509_directory_name_check accepts it (dlen % 2 only); keep it
-                pass
             vals.append((nm, tag, val))
     ea = rt_all(ctx, Ca, vals)
     er = rt_all(ctx, Cr, vals)
